@@ -7,7 +7,7 @@ import re
 from typing import Any, Dict, List, Optional, Set, Tuple
 
 from .core import AnalysisError
-from .pyfacts import Repo, dotted, fold, norm, walk_no_nested
+from .pyfacts import Repo, dotted, fold, norm, resolve_names, walk_no_nested
 
 PARSER = 'flipjump/assembler/fj_parser.py'
 PRE = 'flipjump/assembler/preprocessor.py'
@@ -102,5 +102,5 @@ def label_table_writers(repo: Repo) -> List[Tuple[str, str, ast.AST, ast.AST]]:
         for fn in [n for n in ast.walk(mod) if isinstance(n, (ast.FunctionDef,))]:
             for n in walk_no_nested(fn):
                 if isinstance(n, ast.Subscript) and isinstance(n.ctx, ast.Store) and norm(n.value) == 'self.labels':
-                    out.append((rel, fn.name, n.slice, n))
+                    out.append((rel, fn.name, resolve_names(fn, n.slice), n))          # a key named in a local reads as the expression
     return out
